@@ -92,6 +92,11 @@ func (ex *Ex) callFunction(fr *Frame, st *State, ins ssa.Instruction, callee *ss
 	if hk := ex.hardcoded(fr, st, ins, callee, args, k); hk {
 		return
 	}
+	if fr.Ctr != nil && fr.Ctr.Callbacks != nil && fr.Ctr.Callbacks[callee.Name()] != nil {
+		if ex.callbackCall(fr, st, ins, callee, ctr, args, fr.Ctr.Callbacks[callee.Name()], k) {
+			return
+		}
+	}
 	if ctr != nil && !(ctr.Inline || forceInline) {
 		ex.frameArgsCheck(fr, st, ins, callee, args)
 		ex.callByContract(fr, st, ins, callee, ctr, args, k)
@@ -160,7 +165,31 @@ func (ex *Ex) inlineCall(fr *Frame, st *State, ins ssa.Instruction, callee *ssa.
 			nf.Entry.regs[p] = args[i]
 		}
 	}
+	ex.cellsForWrittenSliceParams(callee, st)
+	nf.Entry = st.Clone()
 	nf.OnReturn = func(st2 *State, results []Val) {
+		// element writes through a slice parameter (kept in a callee-local cell, see indexAddr) are
+		// written back to the caller's register holding that slice (no other alias is updated: T4)
+		if call, ok := ins.(*ssa.Call); ok && !call.Call.IsInvoke() {
+			for i, p := range callee.Params {
+				if i >= len(call.Call.Args) {
+					break
+				}
+				if _, isSlice := p.Type().Underlying().(*types.Slice); !isSlice {
+					continue
+				}
+				pv, ok := st2.regs[p]
+				if !ok || pv.Origin == nil || pv.Origin.Cell <= 0 || len(pv.Origin.Path) != 0 {
+					continue
+				}
+				av := call.Call.Args[i]
+				if cur, ok := st2.regs[av]; ok && cur.T != nil && cur.Origin == nil && cur.Back == 0 {
+					if nt, ok := st2.cells[pv.Origin.Cell]; ok && nt.S.Eq(cur.T.S) {
+						st2.regs[av] = Val{T: nt}
+					}
+				}
+			}
+		}
 		switch len(results) {
 		case 0:
 			k(st2, Val{})
@@ -782,7 +811,33 @@ func (ex *Ex) loopEntry(fr *Frame, st *State, li *loopInfo, b, prev *ssa.BasicBl
 		name := fmt.Sprintf("%s#loop%d.entry.%d", ex.topPrefix(fr), li.Ord, cls[i].Ord)
 		ex.oblige(fr, st, name, "loopentry", ex.clauseProps(fr, cls[i]), "loop invariant holds on entry: "+cls[i].Text, t, b.Instrs[0].Pos())
 	}
-	// havoc
+	if li.Spec != nil && li.Spec.Isolated && fr == ex.Top {
+		// isolated loop: the body is verified once, from the invariants alone; every arriving
+		// path then only continues through the exit
+		if ex.isoDone == nil {
+			ex.isoDone = map[*ssa.BasicBlock]bool{}
+		}
+		if !ex.isoDone[b] {
+			ex.isoDone[b] = true
+			sb := st.Clone()
+			sb.dropBranchConds()
+			if sb.loopMode == nil {
+				sb.loopMode = map[*ssa.BasicBlock]int{}
+			}
+			sb.loopMode[b] = loopBodyOnly
+			sb.trace = append(sb.trace, "isolated-loop-body")
+			ex.loopFromHead(fr, sb, li, b)
+		}
+		if st.loopMode == nil {
+			st.loopMode = map[*ssa.BasicBlock]int{}
+		}
+		st.loopMode[b] = loopExitOnly
+	}
+	ex.loopFromHead(fr, st, li, b)
+}
+
+// loopFromHead: havoc what the loop modifies, assume the invariants, continue from the header.
+func (ex *Ex) loopFromHead(fr *Frame, st *State, li *loopInfo, b *ssa.BasicBlock) {
 	ex.havocLoop(fr, st, li)
 	invalidateLoopRegs(st, li)
 	if li.Spec != nil {
@@ -791,7 +846,7 @@ func (ex *Ex) loopEntry(fr *Frame, st *State, li *loopInfo, b, prev *ssa.BasicBl
 			st.ghost[g.Name] = SV{T: ex.FreshVar("ghost$"+g.Name, old.T.S), Ty: old.Ty}
 		}
 	}
-	invs, _ = ex.loopInvariants(fr, st, li)
+	invs, _ := ex.loopInvariants(fr, st, li)
 	for _, t := range invs {
 		st.Assume(t)
 	}
@@ -873,7 +928,9 @@ func (ex *Ex) havocLoop(fr *Frame, st *State, li *loopInfo) {
 				mt := x.Map.Type().Underlying().(*types.Map)
 				mods[mapHeapKey(w.SortOf(mt.Key()), w.SortOf(mt.Elem()))] = true
 			case *ssa.Call:
-				anyCall = true
+				if _, isBuiltin := x.Call.Value.(*ssa.Builtin); !isBuiltin {
+					anyCall = true
+				}
 				if callee := x.Call.StaticCallee(); callee != nil {
 					for k := range w.modsOf(callee, 0) {
 						mods[k] = true
@@ -1033,6 +1090,10 @@ func (ex *Ex) modsOfAddr(fr *Frame, st *State, addr ssa.Value, mods map[string]b
 		}
 		if v, ok := st.regs[a.X]; ok && v.Back != 0 {
 			cells[v.Back] = true
+			return
+		}
+		if v, ok := st.regs[a.X]; ok && v.Origin != nil && v.Origin.Cell > 0 {
+			cells[v.Origin.Cell] = true
 			return
 		}
 		if ms, ok := a.X.(*ssa.MakeSlice); ok {
